@@ -243,7 +243,8 @@ func execC09(t *testing.T, plan *Plan) *Outcome {
 		}
 		e.out.Nontrivial = sim.ChoicePoints() > 0
 		if sim.PanicVal != nil || sim.Deadlock != "" || sim.TimeOut || sim.StepsOut {
-			e.violate(violation("C16", "deadlock", "stall", fmt.Sprintf("stream run did not finish: panic=%v %s %s", sim.PanicVal, sim.Deadlock, e.stallReport())))
+			// writers and consumers that block each other for good are a stall of delivery
+			e.violate(violation("C09", "stalled-delivery", "deadlock", fmt.Sprintf("stream run did not finish: panic=%v %s %s", sim.PanicVal, sim.Deadlock, e.stallReport())))
 			return
 		}
 		if e.failed() {
